@@ -270,7 +270,16 @@ def check_scorer(ctx, pkg, name, width, inner, mode):
     else:
         # ------------------------------------------------ ndim / dtype / width
         nd = lambda c: c.t[0] == "cmp" and any(a.kind == "app" and a.args[0] == "ndim" for a in atoms_of(c.t[2]).values())  # noqa: E731
-        dt = lambda c: c.t[0] == "opq" and "issubdtype" in c.key and "integer" in c.key  # noqa: E731
+        def dt(c):
+            """the test 'is an integer array': np.issubdtype(., np.integer), or a kind test that admits exactly i and u.  A
+            kind test for ONE of them (`kind == "i"`) is only half of it and is combined per path (kind_state)"""
+            if not (c.t[0] == "opq" and "issubdtype" in c.key and "integer" in c.key):
+                return False
+            import re as _re
+
+            m = _re.search(r"\[kind:([a-zA-Z]+)\]$", str(c.t[1]))
+            return m is None or set(m.group(1)) == {"i", "u"}
+
         def wd(c):
             """an equality test of the last dimension of the caller's array: opaque for an array of unknown shape, a
             comparison of the free dimension after a 1-D row vector was reshaped to (1, -1)"""
@@ -308,15 +317,54 @@ def check_scorer(ctx, pkg, name, width, inner, mode):
         ctx.check(not too_deep, "C13.c CHECK-COMPLETE", f"{name}|{mode}|rank-of-argument" if mode != "shape-unknown" else f"{name}|rank-of-argument", raise_loc(too_deep[0], loc) if too_deep else loc, "on every path to the kernel the cuts argument as given has at most two dimensions (a 3-D array is rejected, not squeezed or reshaped into a matrix)", found=(_facts(too_deep[0]) if too_deep else "rank in {1, 2} established on every path"), expected="ValueError for more than two dimensions")
         rej_nd = [p for p in paths if p.outcome == "raise" and any(nd(c) for c, v in both_polarities(p.facts)) and not any(dt(c) or (c.t[0] == "not" and dt(c.t[1])) or wd(c) for c, v in both_polarities(p.facts))]
         ctx.check(bool(rej_nd) and all(p.exc.exc_name == "ValueError" for p in rej_nd), "C13.c CHECK-COMPLETE", f"{name}|ndim", raise_loc(rej_nd[0], loc) if rej_nd else loc, "arrays that are not 2-D (after a 1-D row vector is reshaped) are rejected with ValueError", found=f"{len(rej_nd)} rejecting paths")
+        def _kind_chars(c):
+            """the dtype kinds a kind test admits (`dtype.kind in "iu"`, `dtype.kind == "i"`), else None"""
+            import re as _re
+
+            if c.t[0] != "opq":
+                return None
+            raw = str(c.t[1])
+            m = _re.search(r"\[kind:([a-zA-Z]+)\]$", raw) or _re.search(r"dtypekind\(.*,([a-zA-Z]+)\)$", raw)
+            return set(m.group(1)) if m else None
+
         def dtype_fact(c, v):
             """None if the fact is not about the dtype, else True when it says 'integer'"""
+            if c.t[0] == "or":
+                # kind == "i" or kind == "u": the kind test spelled as a disjunction of equalities
+                from .common import flatten as _fl
+
+                ks = [_kind_chars(q) for q in _fl(c, "or")]
+                if all(k is not None for k in ks) and set().union(*ks) == {"i", "u"}:
+                    return v
             if dt(c):
                 return v
             if c.t[0] == "not" and dt(c.t[1]):
                 return not v
             return None
 
+        def kind_state(facts):
+            """(admitted, excluded): the dtype kinds the single-kind tests decided on this path admit / exclude"""
+            admitted, excluded = None, set()
+            for c, v in both_polarities(facts):
+                ks = _kind_chars(c)
+                if ks is None or dt(c):
+                    continue
+                if v:
+                    admitted = set(ks) if admitted is None else (admitted & ks)
+                else:
+                    excluded |= ks
+            return admitted, excluded
+
+        def says_integer(facts):
+            if any(dtype_fact(c, v) is True for c, v in both_polarities(facts)):
+                return True
+            adm, _exc = kind_state(facts)
+            return adm is not None and bool(adm) and adm <= {"i", "u"}
+
         def dtype_rejects(p):
+            adm0, exc0 = kind_state(p.facts)
+            if {"i", "u"} <= exc0:
+                return True  # neither a signed nor an unsigned integer kind: the single-kind tests all failed
             """the guard that holds the dtype test fired: the test itself said 'not integer', or a disjunction that has
             'not integer' among its alternatives came out true (`if not is_int or is_timedelta: raise`)"""
             from .common import flatten
@@ -329,14 +377,14 @@ def check_scorer(ctx, pkg, name, width, inner, mode):
             return False
 
         fired = [p for p in paths if dtype_rejects(p)]
-        ok = bool(fired) and all(p.outcome == "raise" and p.exc.exc_name == "ValueError" for p in fired) and all(any(dtype_fact(c, v) is True for c, v in both_polarities(p.facts)) for p in reach)
+        ok = bool(fired) and all(p.outcome == "raise" and p.exc.exc_name == "ValueError" for p in fired) and all(says_integer(p.facts) for p in reach)
         ctx.check(ok, "C13.c CHECK-COMPLETE", f"{name}|{mode}|dtype" if mode != "shape-unknown" else f"{name}|dtype", raise_loc(fired[0], loc) if fired else loc, "non-integer cuts are rejected with ValueError on every path to the kernel", found=f"{len(fired)} rejecting paths")
         # ... and the test that admits them is exact: numpy files timedelta64 under np.integer, so np.issubdtype(dtype,
         # np.integer) alone lets an array of durations through (F-26); the kind test `dtype.kind in "iu"` does not, nor does
         # the hierarchy test together with an explicit exclusion of timedelta64
         def exact_int(p):
             fs = [(c, v) for c, v in both_polarities(p.facts)]
-            by_kind = any(dtype_fact(c, v) is True and "[kind:" in c.key for c, v in fs)
+            by_kind = any(dtype_fact(c, v) is True and "[kind:" in c.key for c, v in fs) or (not any(dtype_fact(c, v) is True for c, v in fs) and says_integer(p.facts))
             no_td = any(c.t[0] == "opq" and "issubdtype" in c.key and "timedelta64" in c.key and v is False for c, v in fs)
             return by_kind or no_td
 
@@ -355,7 +403,7 @@ def check_scorer(ctx, pkg, name, width, inner, mode):
                 if not (isinstance(v, Num) and v.nf is not None and ckey in atoms_of(v.nf)):
                     continue
                 n_cast += 1
-                if e.data["dtype"] != "float" and not any(dtype_fact(c, vv) is True for c, vv in both_polarities(list(e.facts))):
+                if e.data["dtype"] != "float" and not says_integer(list(e.facts)):
                     early.setdefault(e.loc(), e)
         # the spacing test is decided on SIGNED differences: for cuts of an unsigned integer dtype (which the dtype test
         # admits) cuts[:, j+1] - cuts[:, j] wraps around to a huge positive number for a decreasing row, and the row is
